@@ -711,7 +711,13 @@ static void http_response_backend_abort (request_st * const r) {
 }
 
 void http_response_backend_error (request_st * const r) {
-	if (r->resp_body_started && 0 == r->resp_header_len) {
+	if (r->resp_body_started
+	    && (r->http_method == HTTP_METHOD_HEAD || r->http_status == 304)) {
+		/*(response to HEAD and 304 Not Modified have no body; the response
+		 * is complete with the response headers from the backend and is
+		 * finished by the call to http_response_backend_done() that follows)*/
+	}
+	else if (r->resp_body_started && 0 == r->resp_header_len) {
 		/*(response headers not yet sent)*/
 		http_response_backend_incomplete(r);
 	}
